@@ -7,6 +7,22 @@ TRUST = ("TLC 1.8 evaluates the TLA+ judge; harness/lib.py projections (real obj
          "of abstract cases are trusted; bounds as stated in the evidence file")
 
 CHECKS = {
+ "C01": dict(
+    text="SwcIO.tla specifies the writer (source header, comment normalisation, column header, one row per node with shifted ids, the root's -1 kept, "
+         "floats printed as the value rounded half-even to four decimals) and the reader; TLC checks at specification level that reading the writer's "
+         "output returns the rounded tree and the comments (ASSUME over every generated case) and generates every topology x comment list with offsets, "
+         "header modes and source kinds; each case is written and read back twice by the real library; TLC judges the written text line by line (by the "
+         "value each token denotes) against the writer specification and the read-back tree and comments against the original; free-running cases carry "
+         "arbitrary float32 values with their exact decimal expansion, chains of thousands of nodes and high-degree stars",
+    design="4/C01", technique="TLA+ writer/reader specification (SwcIO.tla) + TLC exhaustive small-scope generation, replay into the code, TLC-judged observations of the written text and the read-back tree"),
+ "C02": dict(
+    text="SwcIO.tla models the reader as a state machine with one action per loop iteration (data row / comment / blank / invalid row / decode error), the "
+         "context manager's exit as its own step, then framing and sort/reset; TLC checks NoSilentTruncation, Loud and termination on every file over a line "
+         "alphabet with every option set, checks that the loop-as-function used for judging is what the machine computes, and rejects the named deviation "
+         "(an exit that swallows the exception); TLC generates every small table with non-data lines of every kind (16 malformed kinds, undecodable byte) at "
+         "every position; each file is rendered (spellings, whitespace, CRLF, padding past the first read buffer; text / bytes / path; read_swc / Tree.from_swc) "
+         "and the observed outcome (rows, comments, warning, or exception) is judged by TLC against the specification's outcome",
+    design="4/C02", technique="TLA+ reader state machine (SwcIO.tla) model-checked exhaustively (deviation rejected) + TLC-generated files replayed into the code + TLC-judged outcomes"),
  "C06": dict(
     text="TLC enumerates every well-formed topology (all numberings) up to the bound with every admissible argument; each case is replayed "
          "into get_subtree / Node.subtree / to_subtree / cut_tree / CutByType / CutByFurcationOrder / CutShortTipBranch and the observed "
